@@ -89,7 +89,7 @@ import json, sys
 try: d = json.load(open(sys.argv[1]))
 except Exception: d = {"runs": 0, "outcomes_matching_reference": 0}
 n = open(sys.argv[2]).read().count("WARNING: DATA RACE")
-d.update({"class": "data-race", "violations": d.get("violations", 0) + 1, "messages": ["race detector reported %d data race(s); report: %s" % (n, sys.argv[2])] + d.get("messages", [])[:3]})
+d.update({"class": "data-race", "violations": (d.get("violations") or 0) + 1, "messages": ["race detector reported %d data race(s); report: %s" % (n, sys.argv[2])] + (d.get("messages") or [])[:3]})
 json.dump(d, open(sys.argv[1], "w"))
 PY
   elif [ $rc -ne 0 ]; then
